@@ -4,6 +4,17 @@ from props.base import PropBase, bigio_case, with_bigio
 from props.graphcommon import has_probes, Truth
 
 
+def spell(rnd, x):
+    """a decimal spelling of the integer x: usually str(x); sometimes another one int() reads as the same number (leading
+    zeros, an explicit '+'), so that ONE instant or node may appear under two spellings in one file"""
+    r = rnd.random()
+    if r < 0.8:
+        return str(x)
+    if x >= 0:
+        return rnd.choice(['0%d', '+%d', '00%d', '+0%d']) % x
+    return '-0%d' % (-x)
+
+
 def gen_file(rnd, kind, delim, malformed=False):
     """lines + the clean rows a reader must see, built from a row grammar"""
     d = ' ' if delim is None else delim
@@ -16,7 +27,7 @@ def gen_file(rnd, kind, delim, malformed=False):
         t += rnd.choice([0, 1, 1, 2, 5])
         if kind == 'snap':
             e = rnd.choice([None, None, t + rnd.randint(1, 3)])
-            f = [str(u), str(v), str(t)] + ([] if e is None else [str(e)])
+            f = [spell(rnd, u), spell(rnd, v), spell(rnd, t)] + ([] if e is None else [spell(rnd, e)])
             row = (u, v, t, e)
             if e is not None:
                 t = e
@@ -24,7 +35,7 @@ def gen_file(rnd, kind, delim, malformed=False):
             # a '-' only for a pair whose '+' row is really in the file (a log in which a '-' has no '+' before it is
             # outside the properties: C10 speaks of well-formed logs)
             o = '+' if (u, v) not in latest or rnd.random() < 0.6 else '-'
-            f = [str(u), str(v), o, str(t)]
+            f = [spell(rnd, u), spell(rnd, v), o, spell(rnd, t)]
             row = (u, v, o, t)
             if o == '+' and not (0.5 <= r < 0.70 or 0.88 <= r < 0.94 or (r >= 0.94 and malformed)):   # the branches below that drop the row
                 latest[(u, v)] = t
